@@ -31,7 +31,7 @@ type CaseC13 struct {
 	EOFWith   bool                     `json:"eof_with"`
 	Bufio     bool                     `json:"bufio"`
 	Stop      int                      `json:"stop"`                 // handlers: return false at the Stop-th document (0: never)
-	DecOpts   uint16                   `json:"dec_opts,omitempty"`   // decoder options in force for the direct and the stream decoding alike (see applyUnrelatedOptions)
+	DecOpts   uint32                   `json:"dec_opts,omitempty"`   // decoder options in force for the direct and the stream decoding alike (see applyUnrelatedOptions)
 	UseNumber bool                     `json:"use_number,omitempty"` // JSON kinds: mxj.JsonUseNumber is on for the direct and the stream decoding alike
 }
 
